@@ -81,8 +81,8 @@ theorem flt_cancelRequest (s : St) (id : Nat) : Flt p s (cancelRequest s id).1 :
   · exact Flt.refl s
   · exact ((flt_abortExec hp _ _).trans (flt_removeTimer hp _ _)).pre rfl
 
-theorem flt_rearm {s s2 : St} {now late : Nat} {en : SEntry} (hr : rearm s now late en = some s2) : Flt p s s2 := by
-  rcases rearm_cases s now late en with ⟨_, he⟩ | ⟨q, key, w, _, he⟩ <;> rw [he] at hr <;> cases hr
+theorem flt_rearm {s s2 : St} {now : Nat} {en : SEntry} (hr : rearm s now en = some s2) : Flt p s s2 := by
+  rcases rearm_cases s now en with ⟨_, he⟩ | ⟨q, key, w, _, he⟩ <;> rw [he] at hr <;> cases hr
   cases w
   · exact Flt.of_eq rfl
   · exact (flt_wakeServer hp s).trans (Flt.of_eq rfl)
